@@ -162,6 +162,11 @@ def prepare_spec(chk, table, work):
     for extra in table.get("extra_modules", []):
         shutil.copy(os.path.join(V.REPO, extra), work)
     open(dst, "w").write(text)
+    if table.get("retranslate"):
+        # the checked-in TLA+ translation is stale (reported separately by C02's translation check):
+        # bind against pcal's translation of the checked-in PlusCal
+        V.pcal(work, os.path.basename(src))
+        text = open(dst).read()
     return text
 
 
